@@ -317,6 +317,10 @@ def build():
         ensures=['implies(is_paramref(result), expr.name in ctx.argmap and pnum(result) == ctx.argmap[expr.name].index)'],
         raises={'KeyError': dict(only_if='not (expr.name in ctx.argmap)'), 'AssertionError': {}, 'IndexError': {}},
         hints=dict(var_types={'params': 'Seq[Param]'}))
+    # second view without the quantified precondition (which only serves the KeyError clause): the numbering clause alone, decided both ways
+    w.contract(EXPR, 'compile_Parameter', view='ground', params={'expr': 'IrParameter', 'ctx': 'Ctx'}, returns='Obj',
+        ensures=['implies(is_paramref(result), expr.name in ctx.argmap and pnum(result) == ctx.argmap[expr.name].index)'],
+        raises={'KeyError': {}, 'AssertionError': {}, 'IndexError': {}}, hints=dict(var_types={'params': 'Seq[Param]'}))
     # ---- B: aliases
     w.refclass('Counter', {'counts': 'Fun[str,int]'}, COMMON, 'AliasGenerator')
     w.trusted.append('collections.defaultdict(int) modelled as a total map str -> int (missing keys read 0)')
